@@ -13,7 +13,7 @@ use vf_ref::frame::RFrame;
 pub static FAULT_RUNS: AtomicU64 = AtomicU64::new(0);
 pub static FAULT_RUNS_PENDING: AtomicU64 = AtomicU64::new(0);
 
-pub const FAULTS: [&str; 9] = ["peer-close", "cut-a-to-b", "cut-b-to-a-err", "cut-b-to-a-eof", "cut-both", "half-dead", "invalid-frame", "invalid-frame-silent-peer", "drop-mux"];
+pub const FAULTS: [&str; 11] = ["peer-close", "cut-a-to-b", "cut-b-to-a-err", "cut-b-to-a-eof", "cut-both", "half-dead", "invalid-frame", "invalid-frame-silent-peer", "drop-mux", "invalid-frame-stalled-sink", "source-error-stalled-sink"];
 
 /// events realising fault `f` at step `k`; second value: does side B learn about it (its obligations are checked too)
 pub fn fault_events(f: usize, k: u32) -> (Vec<RawEvent>, bool) {
@@ -28,6 +28,9 @@ pub fn fault_events(f: usize, k: u32) -> (Vec<RawEvent>, bool) {
         6 => (vec![at(What::Inject { from: 1, msg: RawMsg::Bytes(vec![0xf7, 1, 2]) })], true),
         7 => (vec![at(What::Inject { from: 1, msg: RawMsg::Bytes(vec![0x7f]) }), at(What::Blackhole { side: 1 })], false),
         8 => (vec![at(What::DropMux { side: 0 })], true),
+        // the peer has stopped reading (A's sink is not writable any more, no error) when the invalid frame / the receive error arrives
+        9 => (vec![at(What::Wedge { side: 0 }), at(What::Inject { from: 1, msg: RawMsg::Bytes(vec![0x7f]) }), at(What::Blackhole { side: 1 })], false),
+        10 => (vec![at(What::Wedge { side: 0 }), at(What::CutSource { side: 0, err: true }), at(What::Blackhole { side: 1 })], false),
         _ => unreachable!(),
     }
 }
@@ -76,6 +79,15 @@ pub fn teardown_oracle(case: &Case, run: &RunResult, fault: usize, b_knows: bool
         return Ok(false);
     };
     let sides: Vec<Side> = if b_knows { vec![0, 1] } else { vec![0] };
+    // stalled-sink faults: the obligations start when the endpoint has actually SEEN the invalid frame / the receive error. An
+    // endpoint whose receive loop is parked by design (full accept queue, see below) never reads it; with a sink that is not
+    // writable its Acknowledge frames do not reach the wire either, so `accept_blocked` cannot be decided from the wire there.
+    if fault == 9 && !run.events.iter().any(|e| matches!(&e.ev, Ev::Recv { side: 0, msg: WMsg::Invalid(_) })) {
+        return Ok(false);
+    }
+    if fault == 10 && !run.events.iter().any(|e| matches!(&e.ev, Ev::RecvEnd { side: 0, err: true })) {
+        return Ok(false);
+    }
     if fault == 5 && !run.events.iter().any(|e| matches!(&e.ev, Ev::SinkErrorSeen { side: 0 })) {
         // a sink that failed while the endpoint had nothing to send, with a peer that stays silent: nothing to notice yet
         return Ok(false);
